@@ -1,0 +1,71 @@
+//go:build verif
+
+package clientinterceptors
+
+import (
+	"context"
+	"encoding/json"
+	"errors"
+	"fmt"
+	"testing"
+	"time"
+
+	"github.com/gotid/god/internal/verifdrv"
+	"github.com/gotid/god/lib/breaker"
+	"github.com/gotid/god/lib/logx"
+	"github.com/gotid/god/lib/timex"
+	"google.golang.org/grpc"
+	"google.golang.org/grpc/codes"
+	"google.golang.org/grpc/credentials/insecure"
+	"google.golang.org/grpc/status"
+)
+
+// TestVerifDriverC01: {"arg": code + 100*p} -> 200 calls through the client BreakerInterceptor of a fresh method
+// whose invoker returns status.Error(code) (p = 0) or panics (p = 1 string, 2 error); frozen clock. "ok" is false
+// iff any call was cut off by the breaker (ErrServiceUnavailable, invoker not reached); "repanic": how many of
+// the invoker's panics came back out of the interceptor.
+func TestVerifDriverC01(t *testing.T) {
+	logx.Disable()
+	conn, err := grpc.Dial("passthrough:///verif-c01", grpc.WithTransportCredentials(insecure.NewCredentials()))
+	if err != nil {
+		t.Fatal(err)
+	}
+	defer conn.Close()
+	n := 0
+	verifdrv.Run(t, func(raw json.RawMessage) any {
+		var c struct {
+			Arg int `json:"arg"`
+		}
+		if err := json.Unmarshal(raw, &c); err != nil {
+			return map[string]any{"error": err.Error()}
+		}
+		timex.VerifSetNow(time.Hour)
+		defer timex.VerifClockOff()
+		n++
+		method := fmt.Sprintf("/verif.c01/client-%d", n)
+		reached, dropped, repanic := 0, 0, 0
+		invoker := func(ctx context.Context, method string, req, reply any, cc *grpc.ClientConn, opts ...grpc.CallOption) error {
+			reached++
+			switch c.Arg / 100 {
+			case 1:
+				panic("verif panic")
+			case 2:
+				panic(errors.New("verif panic error"))
+			}
+			return status.Error(codes.Code(c.Arg%100), "verif")
+		}
+		for i := 0; i < 200; i++ {
+			before := reached
+			var err error
+			if p, _ := verifdrv.Catch(func() {
+				err = BreakerInterceptor(context.Background(), method, nil, nil, conn, invoker)
+			}); p {
+				repanic++
+			}
+			if reached == before && err == breaker.ErrServiceUnavailable {
+				dropped++
+			}
+		}
+		return map[string]any{"ok": dropped == 0, "dropped": dropped, "repanic": repanic}
+	})
+}
